@@ -4,9 +4,13 @@
  * S symbolic non-NUL bytes; it is stopped at the call of qmesearch() (cut: the stub
  * inspects ufline and ends the path).  checkhome() and bouncexf() are cut to no-ops
  * (they do not touch ufline; they are C13 obligations), env_init/env_put2 are observing
- * stubs (env.c allocates with symbolic sizes).  Everything else on the way is the real
- * code: sgetopt/subgetopt, quote2, myctime/datetime_tai, the stralloc units, the
- * sanitising loop itself.
+ * stubs (env.c allocates with symbolic sizes), quote2() is a copying stub (it feeds rpline,
+ * not ufline; it is a C13 obligation).  strlen() is replaced by a version that returns S
+ * for the sender - after checking that this is its length - so that every stralloc
+ * offset stays concrete (a symbolic strlen result turned every later byte_copy into a
+ * copy at a symbolic offset: no verdict in 600 s).  Everything else on the way is the
+ * real code: sgetopt/subgetopt, myctime/datetime_tai, the stralloc units, the sanitising
+ * loop itself.
  *
  * Reference (mbox(5)): the From_ line is "From " envsender " " date, envsender is one
  * word without spaces or tabs: the envelope sender with every space, tab and newline
@@ -56,6 +60,25 @@ substdio *subfderr = &sserr_;
 int ideal_getc(substdio *s) { return -1; }
 int ideal_putc(substdio *s, unsigned char c) { return 0; }
 int ideal_flush(substdio *s) { return 0; }
+
+size_t vf_strlen(const char *s)
+{
+  size_t n = 0;
+#ifdef VERIF_CBMC
+  if (__CPROVER_POINTER_OBJECT(s) == __CPROVER_POINTER_OBJECT(sender_in) && __CPROVER_POINTER_OFFSET(s) == 0) {   /* decided during symbolic execution */
+#else
+  if (s == sender_in) {
+#endif
+    unsigned int i;
+    for (i = 0; i < S; ++i) CHECK(sender_in[i] != 0, "harness: sender has S non-NUL bytes");
+    CHECK(sender_in[S] == 0, "harness: sender is NUL-terminated at S");
+    return S;
+  }
+  while (s[n]) ++n;
+  return n;
+}
+
+int quote2(stralloc *sa, char *s) { return stralloc_copys(sa, s); }
 
 int env_init(void) { return 1; }
 int env_put2(char *name, char *val) { ++nenv; return 1; }
